@@ -98,6 +98,11 @@ def fresh_gen():
 REG = {
     "dfa_accepts_word": (["dfa", "w"], lambda D, w: sig(DA.dfa_accepts_word(D, w))),
     "dfa_simulate_word": (["dfa", "w"], lambda D, w: sig(DA.dfa_simulate_word(D, w))),
+    "dfa_accepts_all_short_words": (["dfa"], lambda D: [DA.dfa_accepts_word(D, w) for w in G.all_words(sorted(D.Sigma), 3)]),
+    "nfa_accepts_all_short_words": (["nfa"], lambda N: [NA.nfa_accepts_word(N, w) for w in G.all_words(sorted(N.Sigma), 4 if len(N.Sigma) < 3 else 3)]),
+    "nfa_simulates_all_short_words": (["nfa"], lambda N: [run_or_none(NA.nfa_simulate_word(N, w)) for w in G.all_words(sorted(N.Sigma), 3)]),
+    "regexp_accepts_all_short_words": (["re"], lambda r: [RA.regexp_accepts_word(r, w) for w in G.all_words(["a", "b"], 4)]),
+    "pda_accepts_all_short_words": (["pda"], lambda P: [PA.pda_accepts_word(P, w) for w in G.all_words(sorted(P.Sigma), 3)]),
     "dfa_words_up_to_n": (["dfa", "n"], lambda D, n: sig(DA.dfa_words_up_to_n(D, n))),
     "dfa_minimize": (["dfa"], lambda D: sig(DA.dfa_minimize(D))),
     "dfa_quotient": (["dfa"], lambda D: sig(DA.dfa_quotient(D))),
@@ -180,16 +185,44 @@ def build_args(case):
     return objs, canons
 
 
+def settings_witness(op, before, after):
+    """An operation left the global closure limit changed.  Show a later call whose answer differs because of it: a PDA that pushes n symbols and drains
+    them by eps-pops needs a closure of about n configurations for a^n b."""
+    lo, hi = sorted([before, after])
+    n = lo + 5 if hi > lo + 8 else None
+    spec = {"Q": ["d0", "d1", "d2", "d3"], "S": ["a", "b"], "G": ["$", "X"],
+            "d": [["d0", "ε", "ε", "d1", "$"], ["d1", "a", "ε", "d1", "X"], ["d1", "b", "ε", "d2", "ε"], ["d2", "ε", "X", "d2", "ε"], ["d2", "ε", "$", "d3", "ε"]],
+            "q0": "d0", "F": ["d3"], "eps": "ε"}
+    if n is not None and n <= 1200:
+        P = KINDS["pda"][0](spec)
+        w = "a" * n + "b"
+        got_after = PA.pda_accepts_word(P, w)
+        GambaTools.pda_epsilon_closure_max_iterations = before
+        got_before = PA.pda_accepts_word(P, w)
+        if got_after != got_before:
+            raise Fail("history_dependent:global_limit:" + op, "%s leaves GambaTools.pda_epsilon_closure_max_iterations = %d (it was %d); afterwards pda_accepts_word(a^%d b) "
+                       "on an unrelated PDA answers %r instead of %r" % (op, after, before, n, got_after, got_before))
+    raise Fail("global_setting_changed:" + op, "%s leaves GambaTools.pda_epsilon_closure_max_iterations = %d (it was %d)" % (op, after, before))
+
+
 def call(case):
     from harness.libstate import set_identifier_generators
     set_identifier_generators(case.get("id_offset", 0))
     objs, canons = build_args(case)
     old = GambaTools.pda_epsilon_closure_max_iterations
-    GambaTools.pda_epsilon_closure_max_iterations = PDA_LIMIT
+    limit = case.get("limit", PDA_LIMIT)
+    log = GambaTools.enable_logging
+    GambaTools.pda_epsilon_closure_max_iterations = limit
     try:
         result = lib(REG[case["op"]][1], *objs)
+        left = GambaTools.pda_epsilon_closure_max_iterations
+        if left != limit:
+            settings_witness(case["op"], limit, left)
+        if GambaTools.enable_logging != log:
+            raise Fail("global_setting_changed:" + case["op"], "%s leaves GambaTools.enable_logging = %r (it was %r): later calls print other output" % (case["op"], GambaTools.enable_logging, log))
     finally:
         GambaTools.pda_epsilon_closure_max_iterations = old
+        GambaTools.enable_logging = log
     for o, c in zip(objs, canons):
         if c is not None:
             base, want = c
@@ -383,7 +416,10 @@ def op_cases(draw, tier, names=None):
             args[k] = words[draw(st.integers(0, len(words) - 1))] if words else None
     if "dfa" in args and "dfa2" in args and "S" in args["dfa"]:
         args["dfa2"]["S"] = list(args["dfa"]["S"])
-    return {"op": op, "args": args, "id_offset": draw(st.integers(0, 3))}
+    case = {"op": op, "args": args, "id_offset": draw(st.integers(0, 3))}
+    if ("pda" in args or "pda_small" in args) and draw(st.booleans()):
+        case["limit"] = 1000         # the default setting (the generated PDAs keep every closure on the queried words far below PDA_LIMIT)
+    return case
 
 
 @st.composite
@@ -397,7 +433,7 @@ def logging_cases(draw, tier):
     return draw(op_cases(tier))
 
 
-HASH_SENSITIVE = ["dfa_minimize", "dfa_quotient", "dfa_hopfcroft", "dfa_minimize_size", "dfa_to_regexp", "dfa_isomorphic", "dfa_isomorphic1", "nfa_to_dfa", "nfa_simulate_word",
+HASH_SENSITIVE = ["nfa_accepts_all_short_words", "nfa_accepts_all_short_words", "nfa_simulates_all_short_words", "pda_accepts_all_short_words", "dfa_minimize", "dfa_quotient", "dfa_hopfcroft", "dfa_minimize_size", "dfa_to_regexp", "dfa_isomorphic", "dfa_isomorphic1", "nfa_to_dfa", "nfa_simulate_word",
                   "nfa_words_up_to_n", "nfa_accepts_word", "cfg_to_chomsky", "cfg_eliminate_unit_rules", "cfg_words_up_to_n", "cfg_accepts_word", "cfg_cyk_matrix", "cfg_derive_word",
                   "pda_to_cfg", "pda_to_push_pop", "pda_accepts_word", "pda_words_up_to_n", "pda_simulate_word", "regexp_to_nfa", "dfa_union", "dfa_reverse", "dfa_no_extend",
                   "dfa_remove_unreachable_states", "check_dfa_minimal", "check_nfa2dfa", "check_dfa_union", "check_dfa_language_from_words", "cfg_apply_chomsky", "print_dfa",
